@@ -142,34 +142,140 @@ end Iodata.Fmt.Pdb
 namespace Iodata.Fmt.Pdb
 open Iodata.Chars Iodata.Decimal Iodata.Fmt
 
-theorem okTitle_spec {t : Str} (h : okTitle t = true) : Trimmed t ∧ '\n' ∉ t := by
-  unfold okTitle at h
-  simp only [Bool.and_eq_true, decide_eq_true_eq, Bool.not_eq_true'] at h
-  refine ⟨h.1, ?_⟩
-  intro hc
-  have : t.contains '\n' = true := by simpa using hc
-  rw [this] at h; exact absurd h.2 (by decide)
+/-! ### multi-line TITLE / COMPND records -/
 
-theorem okTitle_outTitle (L : Layout) (hL : LayoutOK L) (t : Str) (h : okTitle t = true) :
-    okTitle (outTitle L t) = true := by
+theorem splitNl_ne_nil (s : Str) : splitNl s ≠ [] := by
+  cases s with
+  | nil => simp [splitNl]
+  | cons c cs =>
+    unfold splitNl
+    by_cases hc : (c == '\n') = true
+    · simp [hc]
+    · simp only [hc, if_false, Bool.false_eq_true]
+      cases splitNl cs <;> simp
+
+theorem joinNl_splitNl (s : Str) : joinNl (splitNl s) = s := by
+  induction s with
+  | nil => rfl
+  | cons c cs ih =>
+    unfold splitNl
+    cases hsp : splitNl cs with
+    | nil => exact absurd hsp (splitNl_ne_nil cs)
+    | cons l ls =>
+      rw [hsp] at ih
+      by_cases hc : (c == '\n') = true
+      · have : c = '\n' := by simpa using hc
+        subst this
+        simp only [beq_self_eq_true, if_true]
+        simp only [joinNl] at ih ⊢
+        rw [← ih]
+        simp [List.intercalate]
+      · simp only [hc, if_false, Bool.false_eq_true]
+        simp only [joinNl] at ih ⊢
+        rw [← ih]
+        cases ls <;> simp [List.intercalate]
+
+theorem okLines_spec {w : Nat} {s : Str} (h : okLines w s = true) : (∀ l ∈ splitNl s, Trimmed l) ∧ (splitNl s).length < 10 ^ w := by
+  simp only [okLines, Bool.and_eq_true, List.all_eq_true, decide_eq_true_eq] at h
+  exact h
+
+theorem okTitle_outTitle (L : Layout) (hL : LayoutOK L) (t : Str) (h : okTitle L t = true) :
+    okTitle L (outTitle L t) = true := by
   unfold outTitle; split
   · exact hL.1
   · exact h
 
-theorem step_title (T : Tables) (L : Layout) (hL : LayoutOK L) (st : St) (t : Str) (ht : Trimmed t) :
-    step T L st (recTitle ++ (t ++ ['\n'])) = .ok ({ st with titles := st.titles ++ [t] }, false) := by
-  have hs : strip (sliceFrom L.titleFrom (recTitle ++ (t ++ ['\n']))) = t := by
-    rw [hL.2.2.2.1, sliceFrom_append 10 recTitle _ rfl]
-    have := strip_pad [] t ['\n'] allWs_nil allWs_nl ht
-    simpa using this
-  generalize hline : recTitle ++ (t ++ ['\n']) = line at hs
-  have p1 : startsWith kTitle line = true := by subst hline; simp [startsWith, recTitle, kTitle]
+theorem step_titleX (T : Tables) (L : Layout) (st : St) (filler t : Str)
+    (hs : strip (sliceFrom L.titleFrom (kTitle ++ (filler ++ (t ++ ['\n'])))) = t) :
+    step T L st (kTitle ++ (filler ++ (t ++ ['\n']))) = .ok ({ st with titles := st.titles ++ [t] }, false) := by
+  generalize hline : kTitle ++ (filler ++ (t ++ ['\n'])) = line at hs
+  have p1 : startsWith kTitle line = true := by subst hline; simp [startsWith, kTitle]
   have p2 : startsWith kCompnd line = false := by subst hline; rfl
   have p3 : startsWith kAtom line = false := by subst hline; rfl
   have p4 : startsWith kHetatm line = false := by subst hline; rfl
   have p5 : startsWith kConect line = false := by subst hline; rfl
   have p6 : startsWith kEnd line = false := by subst hline; rfl
   simp [step, p1, p2, p3, p4, p5, p6, hs]
+
+theorem step_compndX (T : Tables) (L : Layout) (st : St) (filler t : Str)
+    (hs : strip (sliceFrom L.titleFrom (kCompnd ++ (filler ++ (t ++ ['\n'])))) = t) :
+    step T L st (kCompnd ++ (filler ++ (t ++ ['\n']))) = .ok ({ st with compnds := st.compnds ++ [t] }, false) := by
+  generalize hline : kCompnd ++ (filler ++ (t ++ ['\n'])) = line at hs
+  have p1 : startsWith kTitle line = false := by subst hline; rfl
+  have p2 : startsWith kCompnd line = true := by subst hline; simp [startsWith, kCompnd]
+  have p3 : startsWith kAtom line = false := by subst hline; rfl
+  have p4 : startsWith kHetatm line = false := by subst hline; rfl
+  have p5 : startsWith kConect line = false := by subst hline; rfl
+  have p6 : startsWith kEnd line = false := by subst hline; rfl
+  simp [step, p1, p2, p3, p4, p5, p6, hs]
+
+/-- the text of a record, first or continuation, is what the reader finds after column ten -/
+theorem strip_first (L : Layout) (key t : Str) (hk : key.length ≤ L.keyW) (hw : L.keyW = L.titleFrom) (ht : Trimmed t) :
+    strip (sliceFrom L.titleFrom (key ++ (spaces (L.keyW - key.length) ++ (t ++ ['\n'])))) = t := by
+  have e : key ++ (spaces (L.keyW - key.length) ++ (t ++ ['\n'])) = (key ++ spaces (L.keyW - key.length)) ++ (t ++ ['\n']) := by simp
+  rw [e, sliceFrom_append _ _ _ (by simp [length_spaces]; omega)]
+  have := strip_pad [] t ['\n'] allWs_nil allWs_nl ht
+  simpa using this
+
+theorem strip_cont (L : Layout) (key t : Str) (n : Nat) (hk : key.length ≤ L.keyW) (hw : L.keyW = L.titleFrom) (ht : Trimmed t)
+    (hn : (natToDec n).length ≤ L.keyW - key.length) :
+    strip (sliceFrom L.titleFrom (key ++ ((rjust (L.keyW - key.length) (natToDec n) ++ [' ']) ++ (t ++ ['\n'])))) = t := by
+  have e : key ++ ((rjust (L.keyW - key.length) (natToDec n) ++ [' ']) ++ (t ++ ['\n']))
+      = (key ++ rjust (L.keyW - key.length) (natToDec n)) ++ ([' '] ++ (t ++ ['\n'])) := by simp
+  rw [e, sliceFrom_append _ _ _ (by rw [List.length_append, length_rjust _ _ hn]; omega)]
+  exact strip_pad [' '] t ['\n'] (by decide) allWs_nl ht
+
+/-- the reader over the records of one multi-line value: every line is appended, in order -/
+theorem loop_multi (T : Tables) (L : Layout) (key : Str) (hk : key.length ≤ L.keyW) (hw : L.keyW = L.titleFrom)
+    (upd : St → Str → St)
+    (hstep : ∀ st filler t, strip (sliceFrom L.titleFrom (key ++ (filler ++ (t ++ ['\n'])))) = t →
+      step T L st (key ++ (filler ++ (t ++ ['\n']))) = .ok (upd st t, false)) :
+    ∀ (ls : List Str) (k : Nat) (st : St) (rest : List Str), (∀ l ∈ ls, Trimmed l) → k + ls.length < 10 ^ (L.keyW - key.length) →
+    0 < L.keyW - key.length →
+    loop T L st (multiFrom L key k ls ++ rest) = loop T L (ls.foldl upd st) rest := by
+  intro ls; induction ls with
+  | nil => intro k st rest _ _ _; rfl
+  | cons l ls ih =>
+    intro k st rest ht hn hpos
+    have hfit : (natToDec (k + 1)).length ≤ L.keyW - key.length :=
+      length_natToDec_le _ _ (by simp at hn; omega) hpos
+    have hs := strip_cont L key l (k + 1) hk hw (ht l List.mem_cons_self) hfit
+    have h1 := hstep st _ l hs
+    have e : contPrefix L key (k + 1) ++ (l ++ ['\n']) = key ++ ((rjust (L.keyW - key.length) (natToDec (k + 1)) ++ [' ']) ++ (l ++ ['\n'])) := by
+      simp [contPrefix]
+    simp only [multiFrom, List.cons_append, loop, e, h1, List.foldl_cons]
+    exact ih (k + 1) _ rest (fun x hx => ht x (List.mem_cons_of_mem _ hx)) (by simp at hn; omega) hpos
+
+theorem loop_multiLines (T : Tables) (L : Layout) (key : Str) (hk : key.length < L.keyW) (hw : L.keyW = L.titleFrom)
+    (upd : St → Str → St)
+    (hstep : ∀ st filler t, strip (sliceFrom L.titleFrom (key ++ (filler ++ (t ++ ['\n'])))) = t →
+      step T L st (key ++ (filler ++ (t ++ ['\n']))) = .ok (upd st t, false))
+    (value : Str) (hv : okLines (L.keyW - key.length) value = true) (st : St) (rest : List Str) :
+    loop T L st (multiLines L key value ++ rest) = loop T L ((splitNl value).foldl upd st) rest := by
+  obtain ⟨ht, hn⟩ := okLines_spec hv
+  unfold multiLines
+  cases hsp : splitNl value with
+  | nil => rfl
+  | cons l ls =>
+    rw [hsp] at ht hn
+    have hs := strip_first L key l (by omega) hw (ht l List.mem_cons_self)
+    have h1 := hstep st _ l hs
+    have e : ljust L.keyW key ++ (l ++ ['\n']) = key ++ (spaces (L.keyW - key.length) ++ (l ++ ['\n'])) := by simp [ljust]
+    simp only [List.cons_append, loop, e, h1, List.foldl_cons]
+    exact loop_multi T L key (by omega) hw upd hstep ls 1 _ rest (fun x hx => ht x (List.mem_cons_of_mem _ hx))
+      (by simp at hn; omega) (by omega)
+
+theorem foldl_titles (ls : List Str) (st : St) :
+    ls.foldl (fun (s : St) t => { s with titles := s.titles ++ [t] }) st = { st with titles := st.titles ++ ls } := by
+  induction ls generalizing st with
+  | nil => simp
+  | cons l ls ih => simp [ih, List.append_assoc]
+
+theorem foldl_compnds (ls : List Str) (st : St) :
+    ls.foldl (fun (s : St) t => { s with compnds := s.compnds ++ [t] }) st = { st with compnds := st.compnds ++ ls } := by
+  induction ls generalizing st with
+  | nil => simp
+  | cons l ls ih => simp [ih, List.append_assoc]
 
 theorem conn_nil_mem (n : Nat) (x : List Nat × Nat) (h : x ∈ (connections n []).zipIdx) : x.1 = [] := by
   have := List.fst_mem_of_mem_zipIdx h
@@ -222,29 +328,10 @@ theorem dumpConect_nil (L : Layout) (n : Nat) : dumpConect L n [] = [] := by
   simp only at this
   subst this; rfl
 
-/-- C02 for PDB files without CONECT records: every object whose fields fit their columns -/
-theorem load_dump (T : Tables) (L : Layout) (hL : LayoutOK L) (o : Obj) (h : Dom T L o) :
-    load T L (dump T L o) = .ok (norm L o) := by
-  obtain ⟨ht, hne, hn, hw, hat, hb⟩ := h
-  have htt := okTitle_spec (okTitle_outTitle L hL o.title ht)
-  have h1 := step_title T L hL ⟨[], [], [], []⟩ (outTitle L o.title) htt.1
-  have hc : dumpConect L o.atoms.length o.bonds = [] := by
-    rw [hb]; exact dumpConect_nil L _
-  have hl := loop_atoms T L hL hw o.atoms ⟨[outTitle L o.title], [], [], []⟩ 0 [recEnd] (by simpa using hn) hat
-  have hempty : o.atoms.isEmpty = false := by
-    cases e : o.atoms with
-    | nil => exact absurd e hne
-    | cons _ _ => rfl
-  unfold load dump
-  simp only [hc, List.nil_append, loop, h1]
-  rw [hl]
-  simp only [loop, step_end, List.nil_append, hempty, Bool.not_false]
-  simp [norm, joinNl, hb, normBonds_nil]
-
 /-! ### C15 -/
 
 /-- the object written on the second save: what the first reload returned (chain ids, if any, kept) -/
-def Loaded.obj (x : Loaded) : Obj := ⟨x.title, x.atoms, x.bonds⟩
+def Loaded.obj (x : Loaded) : Obj := ⟨x.title, x.atoms, x.bonds, x.compound⟩
 
 theorem outTitle_idem (L : Layout) (hL : LayoutOK L) (t : Str) : outTitle L (outTitle L t) = outTitle L t := by
   unfold outTitle
@@ -255,13 +342,5 @@ theorem outTitle_idem (L : Layout) (hL : LayoutOK L) (t : Str) : outTitle L (out
       | cons _ _ => rfl
     simp [h, this]
   · simp [h]
-
-theorem norm_idem (L : Layout) (hL : LayoutOK L) (o : Obj) (hb : o.bonds = []) :
-    norm L (norm L o).obj = norm L o := by
-  simp [norm, Loaded.obj, outTitle_idem L hL, hb, normBonds_nil]
-
-theorem dom_norm (T : Tables) (L : Layout) (hL : LayoutOK L) (o : Obj) (h : Dom T L o) : Dom T L (norm L o).obj := by
-  obtain ⟨ht, hne, hn, hw, hat, hb⟩ := h
-  exact ⟨okTitle_outTitle L hL o.title ht, hne, hn, hw, hat, by simp [norm, Loaded.obj, hb, normBonds_nil]⟩
 
 end Iodata.Fmt.Pdb
